@@ -3,7 +3,7 @@
 From Coq Require Import ZArith Reals Psatz Floats Bool.
 From Flocq Require Import Core BinarySingleNaN PrimFloat.
 From Coquelicot Require Import Complex.
-From PB Require Import Proofs.TwoSumExact Model.Phase2 Proofs.Floor Proofs.DayFrac Proofs.DayFrac3 Proofs.PhaseAdd.
+From PB Require Import Proofs.TwoSumExact Model.Phase2 Proofs.Floor Proofs.DayFrac Proofs.DayFrac3 Proofs.DayFracTail Proofs.DayFracFold Proofs.PhaseAdd.
 Open Scope R_scope.
 
 Notation fexp := (FLT_exp (-1074) 53).
@@ -11,7 +11,7 @@ Notation rnd := (round radix2 fexp ZnearestE).
 
 (* the general day_frac without factor / divisor IS the function of day_frac_sound *)
 Lemma day_frac_gen_none v1 v2 : day_frac_gen v1 v2 None None = day_frac v1 v2.
-Proof. unfold day_frac_gen, day_frac, df_tail. destruct (Phase2.two_sum v1 v2) as [s e]. reflexivity. Qed.
+Proof. unfold day_frac_gen, day_frac, df_tail, day_frac0, df_tail0. destruct (Phase2.two_sum v1 v2) as [s e]. reflexivity. Qed.
 
 (* Phase - Phase *)
 Definition phase_sub (i1 f1 i2 f2 : PrimFloat.float) : PrimFloat.float * PrimFloat.float :=
@@ -24,7 +24,7 @@ Theorem phase_sub_sound (i1 f1 i2 f2 : PrimFloat.float) (k1 k2 : Z) :
   let '(d, f) := phase_sub i1 f1 i2 f2 in
   fin d /\ fin f /\ (exists k : Z, R_of d = IZR k) /\
   Rabs (R_of d + R_of f - ((R_of i1 + R_of f1) - (R_of i2 + R_of f2))) <= bpow radix2 (-52) /\
-  Rabs (R_of f) <= / 2 + bpow radix2 (-50).
+  Rabs (R_of f) <= / 2.
 Proof.
   intros Fi1 Ff1 Fi2 Ff2 E1 E2 K1 K2 B1 B2. unfold phase_sub.
   assert (P51 : bpow radix2 52 = IZR (2 ^ 52)) by (simpl; lra).
@@ -76,7 +76,7 @@ Theorem phase_neg_sound (i f : PrimFloat.float) :
   let '(d, g) := day_frac (PrimFloat.opp i) (PrimFloat.opp f) in
   fin d /\ fin g /\ (exists k : Z, R_of d = IZR k) /\
   Rabs (R_of d + R_of g - (- (R_of i + R_of f))) <= bpow radix2 (-53) /\
-  Rabs (R_of g) <= / 2 + bpow radix2 (-50).
+  Rabs (R_of g) <= / 2.
 Proof.
   intros Fi Ff Bi Bf.
   destruct (opp_R i) as [Ei Fi']. destruct (opp_R f) as [Ef Ff'].
@@ -102,7 +102,7 @@ Theorem phase_construct_sound (x y : PrimFloat.float) :
   let '(d, g) := day_frac_gen x y None None in
   fin d /\ fin g /\ (exists k : Z, R_of d = IZR k) /\
   Rabs (R_of d + R_of g - (R_of x + R_of y)) <= bpow radix2 (-53) /\
-  Rabs (R_of g) <= / 2 + bpow radix2 (-50).
+  Rabs (R_of g) <= / 2.
 Proof. intros. rewrite day_frac_gen_none. apply day_frac_sound; assumption. Qed.
 
 (* ---------- the model's ufunc branches reduce to the functions above (real phases) ---------- *)
